@@ -370,7 +370,7 @@ class Candidate:  # pylint: disable=too-many-instance-attributes
         plat_score = -1
         for plat in self.platforms:
             if plat == "any":
-                plat_score = 0
+                plat_score = max(plat_score, 0)
                 continue
             try:
                 plat = _normalize_manylinux(plat)
